@@ -109,6 +109,15 @@ def inv_task(task):
         probs.append(f"{unrec} tokens took the unrecognised path without a fatal diagnostic")
     if r.trace and len(r.trace[-1][5]) != 1:
         probs.append(f"nesting depth at end of file is {len(r.trace[-1][5])}")
+    if label.startswith("aligned:"):
+        # a conforming body written one statement per line: every statement starts in column 1 and ends with its line
+        for x in r.trace or []:
+            if x[3] is not None and x[3][1] != 1:
+                probs.append(f"a statement starts in column {x[3][1]} (line {x[3][0]})")
+                break
+            if x[4] not in ("NEWLINE", None):
+                probs.append(f"a statement ends with {x[4]} instead of NEWLINE (line {x[3][0] if x[3] else '?'})")
+                break
     if label.startswith("closing:"):
         # the members of a type block are examined inside its scope: a pop that starts on a member line happens at depth 2
         lines = text.split("\n")
@@ -254,6 +263,11 @@ def run(tier, seed):
             hc = norm.render(norm.preamble(".c", "test.c"))
             vtasks.append(("test.c", hc + blk + "\nint\tft_value(int n)\n{\n\treturn (n);\n}\n\nint\tft_other(int n)\n{\n\treturn (n + 1);\n}\n",
                            f"closing:{kw}:{cl.split(chr(9))[-1][:12]}:c"))
+    from . import c01_expr
+    hc_ = norm.render(norm.preamble(".c", "test.c"))
+    for label, body in c01_expr.fptr_cases(tier):
+        if label.startswith(("fptr:call", "fptr:def", "fptr:local")):
+            vtasks.append(("test.c", hc_ + body, "aligned:" + label))
     from . import c02
     for label, ln, code, text in c02.ternary_cases():
         vtasks.append(("test.h" if "#ifndef TEST_H" in text else "test.c", text, "violating:" + label))
